@@ -521,6 +521,7 @@ func (e *Env) fieldOf(v TV, name string) TV {
 			}
 			ft := st.Underlying().(*types.Struct).Field(idx).Type()
 			cur = TV{T: fmt.Sprintf("(select %s %s)", vc.getH(e.cur, fieldHeap(st, idx), vc.fieldHeapSort(st, idx)), cur.T), Ty: ft}
+			e.closed(cur)
 			continue
 		}
 		if !isExpandedStruct(t) {
@@ -531,6 +532,17 @@ func (e *Env) fieldOf(v TV, name string) TV {
 		cur = TV{T: fmt.Sprintf("(%s %s)", fieldAcc(t, idx), cur.T), Ty: ft}
 	}
 	return cur
+}
+
+// closed records the heap-closedness instance for a reference read from the heap: references stored
+// in allocated objects denote allocated objects (the same fact the VC generator assumes at every load).
+func (e *Env) closed(v TV) {
+	switch types.Unalias(v.Ty).Underlying().(type) {
+	case *types.Pointer, *types.Map, *types.Slice:
+		if f := e.vc.rangeFact(v.T, v.Ty, e.cur); f != "" {
+			e.addSide(f)
+		}
+	}
 }
 
 func lookupFieldAnyPkg(t types.Type, name string) (types.Object, []int) {
@@ -571,10 +583,14 @@ func (e *Env) index(x *EIndex) TV {
 	case *types.Slice:
 		n, s := vc.arrHeap(t.Elem())
 		e.addSide(fmt.Sprintf("(= (idx %s %s) (+ (s_off %s) %s))", v.T, i.T, v.T, i.T))
-		return TV{T: fmt.Sprintf("(select (select %s (s_ref %s)) (idx %s %s))", vc.getH(e.cur, n, s), v.T, v.T, i.T), Ty: t.Elem()}
+		r := TV{T: fmt.Sprintf("(select (select %s (s_ref %s)) (idx %s %s))", vc.getH(e.cur, n, s), v.T, v.T, i.T), Ty: t.Elem()}
+		e.closed(r)
+		return r
 	case *types.Map:
 		_, val := vc.mapRead(t, v.T, i.T, e.cur)
-		return TV{T: val, Ty: t.Elem()}
+		r := TV{T: val, Ty: t.Elem()}
+		e.closed(r)
+		return r
 	case *types.Array:
 		return TV{T: fmt.Sprintf("(select %s %s)", v.T, i.T), Ty: t.Elem()}
 	case *types.Basic:
@@ -863,6 +879,18 @@ func (e *Env) call(x *ECall) TV {
 				e.fail("%v", err)
 			}
 			vc.r().groundUsed["machine table of "+typeText(x.Args[1])+" (evaluated by running the real constructor New())"] = true
+			if !strings.Contains(t, "!q") {
+				r := vc.r()
+				if r.memo == nil {
+					r.memo = map[string]string{}
+				}
+				if n, ok := r.memo[t]; ok {
+					return TV{T: n, Ty: boolT}
+				}
+				n := vc.define("mtable", "Bool", t)
+				r.memo[t] = n
+				return TV{T: n, Ty: boolT}
+			}
 			return TV{T: t, Ty: boolT}
 		case "machOf": // machOf(f, "machine name"): the machine struct whose methods are the callbacks of engine f
 			f := e.eval(x.Args[0])
